@@ -51,9 +51,9 @@ X = [1.0, 2.0, 3.0, 4.0]
 Y = [[0.5, 1.0, 2.0, 3.5], [0.75, 1.5, 2.0, 3.25], [0.5, 1.25, 2.25, 3.0], [1.0, 1.0, 2.5, 3.5]][_SEED % 4]
 POINTS = {
     'P0': (0.0, 0.0),      # the start
-    'P1': (0.5, 0.0),      # better
-    'P2': (0.8, -1.0),     # better
-    'P3': (0.7, -2.0),     # the best of the alphabet
+    'P1': (0.5, 0.0),      # the best of the alphabet (with the data of seed 0)
+    'P2': (0.8, -1.0),     # between P3 and P1
+    'P3': (0.7, -2.0),     # better than the start (the histories P0, P3, P2, P1 are three successive improvements)
     'P4': (0.5, 800.0),    # exp overflow: value -inf, gradient not finite
     'P5': (3.0, 0.0),      # far below the start
     'P6': (2.0, 0.0),      # between P5 and PN
@@ -66,7 +66,7 @@ ITER = f'__{MODEL_NAME}.iter'
 
 def ref_ll(p, x=X, y=Y):
     """Reference value and finiteness of the gradient, plain Python.
-    log likelihood = - sum_rows [ (y - b1 x - exp(b2))**2 + (b1 + 1)**0.5 - 0.001 log(b2 + 3) ]
+    log likelihood = - sum_rows [ (y - b1 x - exp(b2))**2 + (b1 + 1)**0.5 - log(b2 + 3) ]
     (a point whose value is not a number is not a candidate for "the best point", whatever its derivatives)"""
     b1, b2 = p
     try:
@@ -75,7 +75,7 @@ def ref_ll(p, x=X, y=Y):
         return float('-inf'), False
     if b1 < -1.0 or b2 <= -3.0:
         return float('nan'), False
-    f = -sum((yy - b1 * xx - e) ** 2 + (b1 + 1.0) ** 0.5 - 0.001 * math.log(b2 + 3.0) for xx, yy in zip(x, y))
+    f = -sum((yy - b1 * xx - e) ** 2 + (b1 + 1.0) ** 0.5 - math.log(b2 + 3.0) for xx, yy in zip(x, y))
     return f, math.isfinite(f) and b1 > -1.0
 
 
@@ -131,7 +131,7 @@ def make_biogeme(names=('b1', 'b2'), start=(0.0, 0.0), fs=None, bounds=None, alg
         ll = -((Variable('y') - 1e-305 * ba) ** 2) - (bbeta * 1e-3 - Variable('x')) ** 2 * 1e-3
     else:
         from biogeme.expressions import log
-        ll = -((Variable('y') - ba * Variable('x') - exp(bbeta)) ** 2) - (ba + 1.0) ** 0.5 + 0.001 * log(bbeta + 3.0)
+        ll = -((Variable('y') - ba * Variable('x') - exp(bbeta)) ** 2) - (ba + 1.0) ** 0.5 + log(bbeta + 3.0)
     kw = dict(save_iterations=True, generate_html=False, generate_pickle=False)
     if algo:
         kw['optimization_algorithm'] = algo
